@@ -2,9 +2,9 @@ package main
 
 import (
 	"fmt"
-	"os"
 	"go/constant"
 	"go/token"
+	"os"
 
 	"golang.org/x/tools/go/ssa"
 )
